@@ -287,6 +287,20 @@ def run(tier):
     c14.handler_unwind(fx, ck, name="R3b.handler-scope")
     import c01b
     c01b.run(fx, ck, OP)
+    # ---- R23 function declarations are hoisted
+    import fnhoist
+    ck.rule("R23.function-declarations-hoisted", "every loop that compiles a statement list comes after a call of the function hoister (a walk over the list that compiles its "
+            "function declarations), in the list compiler itself or in each of its callers", floor=6)
+    hs23, rows23 = fnhoist.rule(fx, lambda g: g.file.startswith("src/compiler"))
+    ck.anchor(bool(rows23), "statement-list compilers in src/compiler (hoisters: %s)" % sorted(h.split("::")[-1] for h in hs23))
+    seen23 = set()
+    for f23, sp23, ok23, why23 in rows23:
+        ck.instance("R23.function-declarations-hoisted", "%s: %s" % (f23.path, why23), F.short_span(sp23), ok=ok23)
+        if not ok23 and f23.path not in seen23:
+            seen23.add(f23.path)
+            ck.finding("R23.function-declarations-hoisted", "R23.function-declarations-hoisted/%s" % f23.path, F.short_span(sp23),
+                       "`%s` compiles the statements of a list in order without creating the list's function declarations first: `f(); function f() {}` "
+                       "throws `f is not defined` (program, function body, block, catch / finally, switch, namespace body alike)" % f23.path)
     # ---- R22 nested function compilers inherit the class context
     import nestedcomp
     ck.rule("R22.nested-compilers-inherit-context", "every function that creates the compiler of a nested function body copies into it each Compiler field (other than the "
